@@ -35,6 +35,9 @@ def env(payload):
                 mm = re.match(r'^ NUMBER OF MEDIA \(0 FOR PERFECTLY CONDUCTING GROUND\):\s*(\d+)$', ln)
                 if mm:
                     kinds.append(10 + int(mm.group(1))); continue
+                mm = re.match(r'^ TYPE OF BOUNDARY \(1-LINEAR, 2-CIRCULAR\):\s*(\d+)$', ln)
+                if mm:
+                    kinds.append(20 + int(mm.group(1))); continue
                 kinds.append(next((k for rx, k in _ENV_KINDS if re.match(rx, ln)), 99))
             out.append(dict(id=c['id'], kinds=kinds))
         except Exception as e:
@@ -123,6 +126,11 @@ def c19(payload):
                 mm = re.search(r'NUMBER OF MEDIA[^:]*:\s*(\d+)', et_)
                 if not mm or int(mm.group(1)) != len(spec['media']):
                     bad.append('environment: number of media %r, model has %d' % (mm and mm.group(1), len(spec['media'])))
+                mb = re.search(r'TYPE OF BOUNDARY[^:]*:\s*(\d+)', et_)
+                if len(spec['media']) > 1:
+                    wb = 2 if (spec['media'][0].get('boundary') == 'circular' or spec['media'][0].get('nradials')) else 1
+                    if not mb or int(mb.group(1)) != wb:
+                        bad.append('environment: type of boundary %r, the model has %s' % (mb and mb.group(1), 'circular (2)' if wb == 2 else 'linear (1)'))
                 if len(blocks_) - 1 != len(spec['media']):
                     bad.append('environment: %d media blocks for %d media' % (len(blocks_) - 1, len(spec['media'])))
                 for i_, (bt, md) in enumerate(zip(blocks_[1:], spec['media'])):
@@ -179,6 +187,36 @@ def c19(payload):
                 seen += nums
             # ---- geometry rows
             wt = m.wires_as_mininec()
+            # ---- per-object table: end points, radius, segment count; the connection of a grounded end is minus the own tag, of an
+            # end that meets no other end 0, of any other end the signed tag of an object that ends in the same point (or 0: the owner)
+            head_part = wt.split('**** ANTENNA GEOMETRY ****')[0]
+            hb = re.split(r'(?m)^\S.* NO\. *(-?\d+)\n', head_part)
+            tol_ = 1e-3 * min(s_.seg_len for g_ in m.geo for s_ in g_.segments)
+            for tg_s, btxt in zip(hb[1::2], hb[2::2]):
+                g_ = next((x_ for x_ in m.geo if x_.tag == int(tg_s)), None)
+                nrows = [ln.split() for ln in btxt.split('\n') if ln.strip() and re.match(r'^-?[\d.]', ln.split()[0])]
+                if g_ is None:
+                    bad.append('object table: block for tag %s, no such object' % tg_s); continue
+                if len(nrows) != 2 or len(nrows[0]) != 4 or len(nrows[1]) != 6 or type(g_).__name__ != 'Wire':
+                    continue
+                ends_ = [np.array(g_.segments[0].p1, dtype=float), np.array(g_.segments[-1].p2, dtype=float)]
+                for e_, row in enumerate(nrows):
+                    for ax in range(3):
+                        _chk(bad, 'object table tag %d end %d coordinate %s' % (g_.tag, e_ + 1, 'XYZ'[ax]), row[ax], ends_[e_][ax], 'f')
+                    cn = int(row[3] if e_ == 0 else row[4])
+                    grounded_ = m.media is not None and abs(ends_[e_][2]) < tol_
+                    others_ = [x_.tag for x_ in m.geo for pe in (x_.segments[0].p1, x_.segments[-1].p2)
+                               if x_ is not g_ and np.linalg.norm(np.array(pe, dtype=float) - ends_[e_]) <= tol_
+                               and not (m.media is not None and abs(pe[2]) < tol_)]
+                    if grounded_:
+                        if cn != -g_.tag: bad.append('object table tag %d end %d: grounded end prints connection %d, minus the tag is %d' % (g_.tag, e_ + 1, cn, -g_.tag))
+                    elif not others_:
+                        if cn != 0 and abs(cn) != g_.tag: bad.append('object table tag %d end %d: an end that meets no other end prints connection %d' % (g_.tag, e_ + 1, cn))
+                    elif cn != 0 and abs(cn) not in others_ + [g_.tag]:
+                        bad.append('object table tag %d end %d: connection %d, the objects ending there have tags %r' % (g_.tag, e_ + 1, cn, others_))
+                _chk(bad, 'object table tag %d radius' % g_.tag, nrows[1][3], g_.r_orig, 'f')
+                if int(nrows[1][5]) != g_.n_segments:
+                    bad.append('object table tag %d: %s segments printed, the object has %d' % (g_.tag, nrows[1][5], g_.n_segments))
             geo_part = wt.split('**** ANTENNA GEOMETRY ****')[1].split('\n')
             gnums = []
             for ln in geo_part:
